@@ -74,6 +74,13 @@ def radio_uri(draw, int_dongle_only=False):
     return c
 
 
+@st.composite
+def connect_case(draw):
+    c = draw(radio_uri())
+    c['scan_mid'] = draw(st.sampled_from([None, None, None, 0xE7E7E7E7E7, 0x0102030405]))
+    return c
+
+
 def _nontrivial(c):
     return c['channel'] is None or c['rate'] is None or c['address'] is None or len(c['address']) < 10 or \
         c['address'] != c['address'].upper() or not isinstance(c['dongle'], int) or c['rate_limit'] is not None
@@ -143,8 +150,41 @@ def run_connect(case):
                 out.fail('connect:no-traffic', '%s: only %d transmissions' % (uri, len(d.tx)))
                 break
             time.sleep(0.0005)
+        marked = None
+        if case.get('scan_mid') is not None and want[0] == 0 and (want[4] is None or want[4] >= 100) and not out.violations:
+            # a second driver instance scans on the same dongle while the link is up (what a client that rescans while
+            # connected does); the link's own packets, recognisable by their payload, must keep the URI's settings
+            from cflib.crtp.crtpstack import CRTPPacket
+            out.feat('connect-scan-while-connected')
+
+            def mark(i):
+                pk = CRTPPacket()
+                pk.set_header(3, 1)
+                pk.data = bytes([0xA5, 0x5A, i])
+                drv.send_packet(pk)
+
+            def wait_marks(n):
+                t1 = time.time()
+                while sum(1 for x in list(d.tx) if x[3][1:3] == b'\xa5\x5a') < n:
+                    if time.time() - t1 > 20:
+                        out.fail('connect:no-traffic', '%s: marked packets not transmitted' % uri)
+                        return
+                    time.sleep(0.0005)
+            mark(0)
+            wait_marks(1)
+            with contextlib.redirect_stdout(io.StringIO()):
+                RadioDriver().scan_interface(case['scan_mid'])
+            for i in range(1, 4):
+                mark(i)
+            wait_marks(4)
+            marked = [x for x in list(d.tx) if x[3][1:3] == b'\xa5\x5a']
         drv.close()
         _wait_radio_closed(want[0])
+    if marked is not None:
+        badm = [(ch, dr, ad) for ch, dr, ad, fr in marked if (ch, dr, tuple(ad or ())) != (want[1], want[2], want[3])]
+        if badm:
+            out.fail('connect:settings-after-scan', '%s: packet of the link transmitted with (channel, rate, address) %r after a scan on the same dongle, expected %r' % (uri, badm[0], want[1:4]))
+        return out
     if drv.rate_limit != want[4]:
         out.fail('connect:rate-limit', '%s -> rate_limit %r' % (uri, drv.rate_limit))
     for k, other in enumerate(dongles):
@@ -369,7 +409,7 @@ def run_openlink(case):
 def subchecks(tier):
     return [
         Sub('parse', run_parse, strategy=radio_uri(), examples={'quick': 2500, 'thorough': 150000}),
-        Sub('connect', run_connect, strategy=radio_uri(), examples={'quick': 120, 'thorough': 6000}),
+        Sub('connect', run_connect, strategy=connect_case(), examples={'quick': 120, 'thorough': 6000}),
         Sub('scan', run_scan, strategy=scan_case(), examples={'quick': 60, 'thorough': 3000}),
         Sub('claim', run_claim, strategy=claim_case(), examples={'quick': 400, 'thorough': 20000}),
         Sub('openlink', run_openlink, strategy=openlink_case(), examples={'quick': 200, 'thorough': 10000}),
